@@ -21,9 +21,6 @@ NOT_APPLICABLE = {
     "C02": "check under construction in this session (E1 parser totality harnesses)",
     "C03": "check under construction in this session (E1 differential vs reference encoder)",
     "C04": "check under construction in this session",
-    "C05": "check under construction in this session (E2 gate + accounting obligations)",
-    "C06": "check under construction in this session (E2 gate + fee composition)",
-    "C07": "check under construction in this session",
     "C08": "check under construction in this session; end-to-end builder runs exceed CBMC memory (DESIGN.md 0.1)",
     "C09": "check under construction in this session",
     "C10": "check under construction in this session",
@@ -33,6 +30,15 @@ NOT_APPLICABLE = {
     "C19": "check under construction in this session",
 }
 CHECKS = {
+    "C06": dict(engine="E2", design_ref="DESIGN.md 2 / C06", technique="symbolic execution of builder MIR from an arbitrary (lazily initialised) state with stubbed callees; SMT (z3 + cvc5); API-level native confirmation",
+                text="Decided from MIR: validate_fee is exact (Ok iff a fee is set and fee >= min_fee of the unmodified builder) and build_tx calls it (C05 gate obligation, re-run here); the fee-request algebra (get_new_fee, set_final_fee, get_fee_if_set) honours a requested minimum as a lower bound and a fixed fee exactly; the private min_fee is linear fee of fake_full_tx(builder, build(builder)) + script fee + tiered reference-script fee on the total reference-script size, and refuses Plutus inputs without prices / reference scripts without a price; every accepted regular input (all address and credential kinds) is stored once with the given outpoint, amount and reference-script size and records its witness requirement; the total reference-script size sums all eight sources.",
+                note="Partial: fee functions are C15, signer counting C18; the fee/change fixed point is not executed. A solver counterexample is reported as VIOLATION only after the native builder battery (kani/src/battery.rs) exhibits an under-funded or unbalanced released transaction."),
+    "C05": dict(engine="E2", design_ref="DESIGN.md 2 / C05", technique="symbolic execution of builder MIR from an arbitrary (lazily initialised) state with uninterpreted callees and a pointwise value abstraction; SMT (z3 + cvc5); native confirmation",
+                text="Decomposition decided obligation by obligation from MIR: (1) build_tx returns Ok only after validate_balance, validate_fee and build returned Ok on the same unmodified builder, and releases exactly build(self)'s body; (2) validate_balance is exact: Ok iff total_input == total_output + fee in lovelace and in an arbitrary asset; (3) get_total_input/get_total_output are the ledger sums of their components (explicit, implicit, mint / outputs, deposits, burn, donation), Err only on u64 overflow; (4) explicit input/output are exact sums over 1-3 stored items; (5) minted amounts go to the input side, burned to the output side. Together: every transaction released by build_tx conserves value; balancing bugs can only make build_tx fail.",
+                note="Partial: the balancing/change code (add_change_if_needed, coin selection) is not executed; build()/build_tx_unsafe() are outside the claim. Value operations enter through summaries (valuemodel.py) proved separately on small bundles."),
+    "C07": dict(engine="E2", design_ref="DESIGN.md 2 / C07", technique="symbolic execution of MIR into nonlinear integer SMT (z3 + cvc5) with the serialized size abstracted by a size lemma; native confirmation on real bytes",
+                text="min_ada_for_output/calculate_ada executed from MIR for every coin, every coins_per_byte (all u64) and every size K of the rest of the output (1..2^32): the output funded with max(c, coin) satisfies coin >= cpb*(160+size), c <= cpb*(160+K+9), Err only if that widest bound exceeds u64. add_output admits an output iff value size <= max_value_size and coin >= min ADA and stores it exactly once; build() returns a body only if the predicted size <= max_tx_size.",
+                note="The serialized size enters as len = K + head(coin); that the real serializer satisfies this for each shape is C03's E1 obligation. Change outputs and collateral return are covered through the functions they call."),
     "C11": dict(engine="E1", design_ref="DESIGN.md 2 / C11", technique="bounded model checking (Kani/CBMC, SAT) of Address encode/parse over symbolic bytes, native replay of counterexamples",
                 text="For each Shelley kind (one harness per kind so that layouts are concrete): every network id 0..15, both credential kinds and all hash bytes encode to the CDDL header/payload and decode back to an equal value; pointer naturals over all u64 (one symbolic natural at a time); the strict parser on every non-Byron byte string of <= 34 bytes and on base-address candidates of 55..60 bytes accepts exactly the kind's exact length and reports kind/network/credentials as the bytes say; the embedded parser keeps every invalid carried string of <= 34 bytes verbatim as a malformed address. Bounded, not a proof.",
                 note="Byron CBOR/CRC32 parser is stubbed to 'unreachable' in harnesses whose inputs exclude the Byron header nibble (reaching it fails the harness). Bech32/Base58 text forms and Byron addresses are outside the bound. Known deviation kept as documented behaviour: see DESIGN.md (embedded addresses with trailing bytes)."),
